@@ -1071,6 +1071,42 @@ func loops2(loops map[*ssa.BasicBlock]*ssa.BasicBlock, b, hdr *ssa.BasicBlock) b
 // postGuardedBy: a guard on the constructed node W (whose type delegates to the slot)
 // placed after the construction and before every success return.
 func (pf *ParserFacts) postGuardedBy(s SlotStore, accepted ...atomKind) (bool, string) {
+	// the node is built by a constructor that is handed the value (minusOne(x)): what the call
+	// hands back is the node, tested afterwards through its delegated type
+	if call, isCall := s.Instr.(*ssa.Call); isCall {
+		info := pf.typeInfo[s.Node]
+		if info.kind != "delegate" || info.field != s.Field {
+			return false, ""
+		}
+		acc := map[atomKind]bool{}
+		for _, k := range accepted {
+			acc[k] = true
+		}
+		d := pf.derive(call, false)
+		cut := map[[2]*ssa.BasicBlock]bool{}
+		if os.Getenv("VERIF_DEBUG_POST") != "" {
+			fmt.Fprintf(os.Stderr, "POSTCALL %s.%s in %s: vals=%d types=%d atoms=%d\n", s.Node, s.Field, s.Fn.Name(), len(d.vals), len(d.types), len(pf.atomsOn(s.Fn, d)))
+		}
+		for _, a := range pf.atomsOn(s.Fn, d) {
+			if acc[a.kind] {
+				b := a.ifi.Block()
+				cut[[2]*ssa.BasicBlock{b, b.Succs[a.holdsOn]}] = true
+			}
+		}
+		if len(cut) == 0 {
+			return false, ""
+		}
+		for _, b := range s.Fn.Blocks {
+			ret, isRet := b.Instrs[len(b.Instrs)-1].(*ssa.Return)
+			if !isRet || isErrorReturn(ret) {
+				continue
+			}
+			if reachableFromWithout(call.Block(), cut, b) {
+				return false, ""
+			}
+		}
+		return true, "checked after the constructor call through the node's delegated type, before every success return"
+	}
 	st, ok := s.Instr.(*ssa.Store)
 	if !ok {
 		return false, ""
@@ -1227,6 +1263,22 @@ func reachableFromWithout(from *ssa.BasicBlock, cut map[[2]*ssa.BasicBlock]bool,
 			return x.IsNil(), true
 		case *ssa.MakeInterface:
 			return false, true
+		case *ssa.Call:
+			// a constructor: every return hands back a node it has just built
+			if callee := x.Call.StaticCallee(); callee != nil && callee.Blocks != nil && callee.Signature.Results().Len() == 1 {
+				n := 0
+				for _, cb := range callee.Blocks {
+					if ret, ok := cb.Instrs[len(cb.Instrs)-1].(*ssa.Return); ok {
+						if _, isMI := ret.Results[0].(*ssa.MakeInterface); !isMI {
+							return false, false
+						}
+						n++
+					}
+				}
+				if n > 0 {
+					return false, true
+				}
+			}
 		}
 		return false, false
 	}
